@@ -131,6 +131,7 @@ def collect_unsafe_coverage(tier, seed):
 
 
 R_PREFIX = {
+    "C13": ("R:legal:",),
     "C10": ("R:closure:", "R:legal:", "R:keep:"),
     "C09": ("R:keep:", "R:keepmode:", "R:auto:", "R:mode:"),
     "C06": ("R:auto:iter", "R:mode:", "R:keepmode:iter"),
@@ -286,6 +287,30 @@ def collect_K(pid, tier):
     return obs, meta
 
 
+def collect_N(pid, tier, seed):
+    r = artifacts.get_n(pid, tier)
+    obs = []
+    meta = {"cache_hit": r.get("cache_hit"), "layer_wall_s": r.get("wall_s", 0), "instances": 0, "evaluations": 0, "samples": [],
+            "bound": "finite designed catalogue of declarations, each with the verdict the property demands; decided by the real macro + rustc (cargo check)"}
+    if r.get("error"):
+        obs.append(Ob("N/build", "undecided", "rustc", r["error"][-2500:]))
+        return obs, meta
+    for modname, v in sorted(r["modules"].items()):
+        meta["instances"] += 1
+        meta["evaluations"] += 1
+        desc = {"decl": v["decl"], "must_be_rejected": v["must_be_rejected"], "why": v["why"], "rejected": v["rejected"]}
+        if len(meta["samples"]) < 4:
+            meta["samples"].append(desc)
+        rp = {"mod": modname, "decl": v["decl"], "fail": {"prop": pid, "check": "accept/reject", "detail": v["why"]}, "seed": seed, "tier": tier, "negative": pid}
+        if v["rejected"] == v["must_be_rejected"]:
+            obs.append(Ob("N/" + modname, "ok", "rustc", sample=desc))
+        elif v["must_be_rejected"]:
+            obs.append(Ob("N/" + modname, "failed", "rustc", "a declaration the property says must never compile is accepted (%s): %s" % (v["why"], v["decl"][-300:]), sample=desc, replay=rp))
+        else:
+            obs.append(Ob("N/" + modname, "failed", "rustc", "a declaration inside the accepted domain is rejected (%s): %s" % (v["why"], v["message"][:400]), sample=desc, replay=rp))
+    return obs, meta
+
+
 def _i_relevant(pid, prop):
     if prop == pid:
         return True
@@ -394,6 +419,7 @@ def write_replay(pid, n, ob, partner=None):
     info = {"property": pid, "obligation": ob.id, "backend": ob.backend, "failing_input_found": False}
     if src.replay and src.replay.get("decl"):
         rp = src.replay
+        info["negative"] = rp.get("negative")
         info.update({"failing_input_found": True, "module": rp["mod"], "failing_check": rp["fail"], "seed": rp["seed"], "tier": rp["tier"],
                      "how": "./check %s --replay %s" % (pid, d)})
         with open(os.path.join(d, "decl.rs"), "w") as f:
@@ -411,8 +437,20 @@ def do_replay(path):
     if not info.get("failing_input_found"):
         print("no concrete failing input was found for this obligation (no-failing-input-found); the verifier output above is the evidence")
         return 1
-    # rebuild the corpus entry by module name from the generator (same seed/tier)
     seed, tier = info["seed"], info["tier"]
+    if info.get("module", "").startswith("n1"):
+        from . import layer_n
+        pid_ = "C" + info["module"][1:3]
+        specs = [s_ for s_ in {"C12": layer_n.c12_specs, "C13": layer_n.c13_specs, "C14": layer_n.c14_specs}[pid_](tier) if s_.mod == info["module"]]
+        if not specs:
+            print("cannot regenerate module %s" % info["module"])
+            return 2
+        with Scratch("vf-replay-") as sc:
+            r = layer_n.run_negative(sc, specs)
+        v = r["modules"][specs[0].mod]
+        print("REPLAY %s: must_be_rejected=%s rejected=%s %s" % (specs[0].mod, v["must_be_rejected"], v["rejected"], v["message"][:300]))
+        return 0 if v["rejected"] == v["must_be_rejected"] else 1
+    # rebuild the corpus entry by module name from the generator (same seed/tier)
     specs = artifacts.quick_instance_corpus(seed) if tier == "quick" else corpus.instance_corpus("thorough", seed)
     specs = [s for s in specs if s.mod == info["module"]]
     if not specs:
